@@ -2,7 +2,7 @@
 # usage: seedtest.sh <patch.diff> <tier> <prop>... : applies a seeded change to /repo, runs the given checks, ALWAYS reverts.
 # BASE=1 also runs the repository's baseline with the change applied.
 set -u
-P=$1; T=$2; shift 2
+P=$(realpath $1); T=$2; shift 2
 cd /verif; export VERIF_EVIDENCE_DIR=/dev/shm/verif-seed-evidence
 if ! git -C /repo diff --quiet; then echo "seedtest: /repo is dirty, refusing"; exit 2; fi
 trap 'git -C /repo checkout -- . ; git -C /repo clean -fdq' EXIT
